@@ -2,6 +2,7 @@
 // Oracle: order axioms (trichotomy, derived operators, transitivity), reference lexicographic / numeric order,
 // multiset equality + adjacent ordering for sorts, lookups intact after HArray::Sort.
 #include "common/pbt.hpp"
+#include <pthread.h>
 #include "common/jmodel.hpp"
 
 #include <algorithm>
@@ -486,6 +487,141 @@ void run_sort(const Case &c, pbt::Ctx &ctx) {
     }
 }
 
+// ---------------------------------------------------------------------------------------------- big sorts
+// Sets of 1025 .. 5000 items (every range a sort hands on is still "big" several levels down) in the shapes that are hard for a
+// partitioning sort - sorted, reversed, all equal, few distinct, organ pipe - and 20000 sorted / reversed / equal items sorted on a
+// thread whose stack has 512 KiB (the default of a secondary thread on macOS; musl's is smaller): the sort returns, ordered, a permutation.
+struct BigSort {
+    unsigned n{0}, shape{0}, cont{0};
+    bool     ascend{true}, small_stack{false};
+    std::string text() const {
+        return std::to_string(n) + "," + std::to_string(shape) + "," + std::to_string(cont) + "," + std::to_string(ascend ? 1 : 0) + "," + std::to_string(small_stack ? 1 : 0);
+    }
+    static BigSort parse(const std::string &t) {
+        BigSort  b;
+        unsigned a = 1, st = 0;
+        sscanf(t.c_str(), "%u,%u,%u,%u,%u", &b.n, &b.shape, &b.cont, &a, &st);
+        b.ascend      = a != 0;
+        b.small_stack = st != 0;
+        return b;
+    }
+};
+
+std::vector<uint32_t> big_input(const BigSort &b) {
+    std::vector<uint32_t> v(b.n);
+    uint32_t              x = 12345 + b.n;
+    for (unsigned i = 0; i < b.n; ++i) {
+        switch (b.shape) {
+            case 0: x = x * 1664525u + 1013904223u; v[i] = (x >> 8) % 1000000u; break;
+            case 1: v[i] = i * 3; break;
+            case 2: v[i] = (b.n - i) * 3; break;
+            case 3: v[i] = 7; break;
+            case 4: v[i] = i % 7; break;
+            default: v[i] = (i < b.n / 2) ? i * 2 : (b.n - i) * 2 + 1; break;
+        }
+    }
+    return v;
+}
+
+struct BigSortJob {
+    BigSort     b;
+    std::string why; // empty: fine
+};
+
+void big_sort_body(BigSortJob &job) {
+    const BigSort        &b  = job.b;
+    std::vector<uint32_t> in = big_input(b);
+    std::vector<uint32_t> out;
+    if (b.cont == 0) {
+        Array<unsigned int> a;
+        for (uint32_t x : in) {
+            a += x;
+        }
+        a.Sort(b.ascend);
+        out.assign(a.First(), a.First() + a.Size());
+    } else if (b.cont == 1) {
+        Value<char> v;
+        for (uint32_t x : in) {
+            v += SizeT64(x);
+        }
+        v.Sort(b.ascend);
+        for (SizeT i = 0; i < v.Size(); ++i) {
+            const Value<char> *it = v.GetValue(i);
+            out.push_back(it != nullptr ? uint32_t(it->GetUInt64()) : 0xFFFFFFFFu);
+        }
+    } else {
+        // keys of a hash array: distinct keys whose order is the order of the numbers (fixed width), value = position on insertion
+        HArray<String<char>, SizeT> h;
+        char                        key[24];
+        for (unsigned i = 0; i < b.n; ++i) {
+            snprintf(key, sizeof key, "k%07u-%05u", in[i], i);
+            h.Insert(String<char>{key}, SizeT(i));
+        }
+        h.Sort(b.ascend);
+        std::string prev;
+        for (SizeT i = 0; i < h.Size(); ++i) {
+            const String<char> *k = h.GetKey(i);
+            if (k == nullptr) {
+                job.why = "GetKey(" + std::to_string(i) + ") is null after Sort";
+                return;
+            }
+            std::string ks(k->First(), k->Length());
+            unsigned    num = 0, pos = 0;
+            sscanf(ks.c_str(), "k%u-%u", &num, &pos);
+            const SizeT *val = h.GetValue(k->First(), k->Length());
+            if (val == nullptr || *val != SizeT(pos) || pos >= b.n || in[pos] != num) {
+                job.why = "after Sort the key " + ks + " no longer maps to its value";
+                return;
+            }
+            if (i != 0 && (b.ascend ? !(prev < ks) : !(ks < prev))) {
+                job.why = "keys " + prev + " and " + ks + " are out of order";
+                return;
+            }
+            prev = ks;
+            out.push_back(num);
+        }
+    }
+    if (out.size() != in.size()) {
+        job.why = "size changed from " + std::to_string(in.size()) + " to " + std::to_string(out.size());
+        return;
+    }
+    for (size_t i = 0; i + 1 < out.size(); ++i) {
+        if (b.ascend ? out[i + 1] < out[i] : out[i] < out[i + 1]) {
+            job.why = "items " + std::to_string(i) + " and " + std::to_string(i + 1) + " are out of order (" + std::to_string(out[i]) + ", " + std::to_string(out[i + 1]) + ")";
+            return;
+        }
+    }
+    std::sort(in.begin(), in.end());
+    std::sort(out.begin(), out.end());
+    if (in != out) {
+        job.why = "the result is not a permutation of the input";
+    }
+}
+
+void *big_sort_thread(void *p) {
+    big_sort_body(*static_cast<BigSortJob *>(p));
+    return nullptr;
+}
+
+std::string big_sort_case(const BigSort &b) {
+    BigSortJob job;
+    job.b = b;
+    if (!b.small_stack) {
+        big_sort_body(job);
+        return job.why;
+    }
+    pthread_attr_t at;
+    pthread_attr_init(&at);
+    pthread_attr_setstacksize(&at, 512 * 1024);
+    pthread_t th;
+    if (pthread_create(&th, &at, big_sort_thread, &job) != 0) {
+        return ""; // (no thread: nothing decided)
+    }
+    pthread_join(th, nullptr);
+    pthread_attr_destroy(&at);
+    return job.why;
+}
+
 struct H {
     using Case = ::Case;
     static const char *name() { return "C15 order and sort"; }
@@ -520,6 +656,9 @@ struct H {
             kv.put("a", pbt::enc_bytes(c.a));
             kv.put("b", pbt::enc_bytes(c.b));
         }
+        if (c.kind == 4) {
+            kv.put("a", pbt::enc_bytes(c.a));
+        }
         if (c.kind == 3) {
             kv.putu("i", c.i);
             kv.putu("j", c.j);
@@ -544,6 +683,14 @@ struct H {
         if (c.kind == 1) {
             ctx.nontrivial();
             run_sort(c, ctx);
+            return;
+        }
+        if (c.kind == 4) {
+            ctx.nontrivial();
+            const std::string why = big_sort_case(BigSort::parse(c.a));
+            if (!why.empty()) {
+                ctx.fail("big-sort", "sort of " + c.a + " (items, shape, container, ascending, 512 KiB stack): " + why);
+            }
             return;
         }
         if (c.kind == 2) {
@@ -593,6 +740,49 @@ struct H {
 
     static void enumerate(pbt::Ctx &ctx, unsigned shard, unsigned nshards, const std::string &what) {
         ctx.distinct_by_construction = true;
+        if (what == "big-sorts") {
+            std::vector<BigSort> all;
+            for (unsigned n : {1025u, 1500u, 2049u, 3000u, 5000u}) {
+                for (unsigned shape = 0; shape < 6; ++shape) {
+                    for (unsigned cont = 0; cont < 3; ++cont) {
+                        for (int asc = 0; asc < 2; ++asc) {
+                            BigSort b;
+                            b.n = n, b.shape = shape, b.cont = cont, b.ascend = asc != 0;
+                            all.push_back(b);
+                        }
+                    }
+                }
+            }
+            for (unsigned shape : {1u, 2u, 3u}) {
+                for (int asc = 0; asc < 2; ++asc) {
+                    BigSort b;
+                    b.n = 20000, b.shape = shape, b.cont = 0, b.ascend = asc != 0, b.small_stack = true;
+                    all.push_back(b);
+                }
+            }
+            for (size_t i = 0; i < all.size(); ++i) {
+                if ((i % nshards) != shard) {
+                    continue;
+                }
+                const std::string text = "kind=4\na=" + pbt::enc_bytes(all[i].text()) + "\nbytes=\n";
+                ctx.set_cur(text);
+                ++ctx.evaluations;
+                ++ctx.nontrivial_counted;
+                ++ctx.nontrivial_total;
+                const std::string why = big_sort_case(all[i]);
+                if (!why.empty()) {
+                    ctx.failed    = true;
+                    ctx.fail_cls  = "big-sort";
+                    ctx.fail_msg  = "sort of " + all[i].text() + " (items, shape, container, ascending, 512 KiB stack): " + why;
+                    ctx.fail_text = text;
+                    ctx.write_stats();
+                    return;
+                }
+            }
+            ctx.exhaustive      = true;
+            ctx.exhaustive_what = "big sorts: 5 sizes (1025..5000) x 6 shapes x 3 containers x 2 directions, and 20000 sorted / reversed / equal items on a 512 KiB stack";
+            return;
+        }
         if (what == "strings3" || what == "strings4") {
             std::vector<Str> u = small_universe(what == "strings3" ? 3 : 4);
             // pairs: all comparison surfaces
